@@ -25,6 +25,26 @@ META = {
 COQ_FILES = ["C01/VyCore.v", "C01/VyWf.v", "C01/VyShow.v", "C01/VyLaws.v", "C08/PropsC08.v"]
 
 
+VALUE_ORDER_FREE = {"aug_scalar", "aug_scalar_bit"}
+
+
+def finding_key(fname, cfg):
+    """stable key per root cause (pipeline x position class), independent of level / EVM target / seed"""
+    pipe = "venom" if cfg.venom else "legacy"
+    lab = fname.split("_", 1)[1] if "_" in fname else fname
+    if lab.startswith("cmp_") or lab == "if_cond":
+        cls = "compare-operands"
+    elif lab in ("binop_BOr", "binop_BAnd", "binop_BXor"):
+        cls = "bitwise-operands"
+    elif lab.startswith("binop_") or lab == "binop_nested":
+        cls = "arithmetic-operands"
+    elif lab.startswith("bool"):
+        cls = "boolop"
+    else:
+        cls = lab
+    return f"C08:{pipe}:{cls}"
+
+
 def c08_configs(tier):
     cfgs = list(configs(tier))
     names = {c.name for c in cfgs}
@@ -65,13 +85,13 @@ def run(ctx):
                 except Exception as e:
                     rejected_positions.setdefault(pos, {})[pipe] = f"{type(e).__name__}: {str(e).strip().splitlines()[0][:120]}"
             if acc:
-                classes.setdefault(tuple(acc), []).append((pos, rnd))
+                classes.setdefault((tuple(acc), pos in VALUE_ORDER_FREE), []).append((pos, rnd))
     items = []
-    for acc, lst in sorted(classes.items()):
+    for (acc, vfree), lst in sorted(classes.items()):
         for k in range(0, len(lst), 10):
             p, unordered, labels = build_group(mk, lst[k:k + 10])
             calls = [H.Call(i, []) for i in range(len(p.exts))]
-            items.append({"prog": p, "calls": calls, "unordered": {i for i, u in unordered.items() if u}, "labels": labels,
+            items.append({"prog": p, "calls": calls, "group": lst[k:k + 10], "unordered": {i for i, u in unordered.items() if u}, "labels": labels, "value_order_free": vfree,
                           "applicable": (lambda c, acc=acc: ("venom" if c.venom else "legacy") in acc)})
     models = H.model_eval([(it["prog"], it["calls"]) for it in items], "c08", full=True)
     n_events = 0
@@ -91,39 +111,65 @@ def run(ctx):
     obs = D.observe_all(items, cfgs, procs=3)
     n_cmp = 0
     rejected = {}
-    reported = 0
+    rejected_src = {}
     per_position = {}
+    seen_keys = {}
+    aug_value_diffs = {}
     for i, it in enumerate(items):
         for j, cfg in enumerate(cfgs):
             if (i, j) not in obs:
                 continue
             st, o = obs[(i, j)]
             if st == "exc":
-                rejected[o[0]] = rejected.get(o[0], 0) + 1
-                if reported < 3:
-                    reported += 1
-                    ctx.violation("correspondence-broken", f"matrix program does not compile under {cfg.name}: {o[0]}",
-                                  {"config": cfg.name, "exception": o[0], "message": o[1], "source": it["prog"].vy()})
+                # the reference configuration of this pipeline accepted the program: a crash under another level / flag is a
+                # configuration-dependent outcome (reported by C02), not an effect-order observation
+                rk = f"{o[0]}: {(o[1].strip().splitlines() or [''])[0][:80]}"
+                rejected.setdefault(rk, []).append(cfg.name)
+                rejected_src.setdefault(rk, it["prog"].vy(prune=True))
                 continue
             n_cmp += len(it["calls"])
             d = H.compare(it["prog"], it["calls"], it["model"], o, unordered=it["unordered"])
             for lab in it["labels"]:
                 key = lab.split("_", 1)[1]
                 per_position[key] = per_position.get(key, 0) + 1
-            if d is not None and reported < 3:
-                reported += 1
-                fname = it["labels"][d["call"]] if "call" in d else None
-                # isolate the failing test function for the report
-                src = it["prog"].vy()
-                mres = it["model"][0][d["call"]] if "call" in d else None
-                detail = {"config": cfg.name, "difference": d, "function": fname,
-                          "model_trace": str(mres[2]) if mres and mres[0] == "ok" else str(mres),
-                          "source": src,
-                          "calls": [f.abi_sig() for f in it["prog"].exts[:(d.get("call", 0) + 1)]],
-                          "rule": "VyCore evaluation order (theorem eval_once_in_order): each tagged sub-expression exactly once, "
-                                  "in source order; expected = model, observed = EVM"}
-                ctx.violation("failing-input", f"effect order/count differs from source order in {fname} under {cfg.name}",
-                              detail, key=f"C08:{(fname or '').split('_', 1)[-1]}:{cfg.name}")
+            if d is None:
+                continue
+            if it["value_order_free"] and d["what"] in ("return-data", "final-storage"):
+                # aug-assignment: only exactly-once is demanded (the ordered logs matched); the value order is C02's subject
+                aug_value_diffs[cfg.name] = aug_value_diffs.get(cfg.name, 0) + 1
+                continue
+            fname = it["labels"][d["call"]] if "call" in d else "(final storage)"
+            key = finding_key(fname, cfg)
+            if key in seen_keys:
+                seen_keys[key] += 1
+                continue
+            seen_keys[key] = 1
+            if len(seen_keys) > 8:
+                continue
+            # isolate the failing test function: rebuild it alone and re-run it (the replay is then one small contract)
+            detail = {"config": cfg.name, "difference": d, "function": fname,
+                      "rule": "VyCore evaluation order (theorem eval_once_in_order / pass_by_value): each tagged sub-expression exactly "
+                              "once, in source order; expected = model, observed = EVM"}
+            try:
+                pos, rnd = it["group"][d["call"]]
+                single = build_one(mk, pos, rnd).p
+                calls1 = [H.Call(0, [])]
+                m1 = H.model_eval([(single, calls1)], "c08s", full=True, procs=1)[0]
+                o1 = H.observe(single, cfg, calls1, single.vy(prune=True))
+                d1 = H.compare(single, calls1, m1, o1, unordered={0} if it["unordered"] and d["call"] in it["unordered"] else ())
+                if d1 is not None:
+                    out = []
+                    single.exts[0].vy(out)
+                    detail.update({"source": single.vy(prune=True), "test_function": "\n".join(out), "difference": d1,
+                                   "call": single.exts[0].abi_sig(), "model_trace": str(m1[0][0][2]) if m1[0][0][0] == "ok" else str(m1[0][0])})
+            except Exception as e:
+                detail["isolation_failed"] = f"{type(e).__name__}: {e}"
+            if "source" not in detail:
+                detail["source"] = it["prog"].vy()
+                detail["calls"] = [f.abi_sig() for f in it["prog"].exts[:(d.get("call", 0) + 1)]]
+            ctx.violation("failing-input", f"effect order/count differs from source order in {fname} under {cfg.name}", detail, key=key)
+    ctx.corr["distinct_findings"] = seen_keys
+    ctx.corr["aug_assign_value_order_differences_by_config"] = aug_value_diffs
     ctx.corr["evaluations"] = n_cmp
     ctx.corr["distinct_nontrivial"] = sum(len(it["calls"]) for it in items) * len(cfgs)
     ctx.corr["rule"] = ("one evaluation = one matrix test function executed under one configuration and compared (ordered logs, "
